@@ -12,6 +12,12 @@ CHECKS = {
         text="TLC checks the clock laws (closed form = incremental clock, inverse conversions, floor, window, mirror) for every clock in the bound and the period grammar (scanner = declarative language) for every token string in the bound; every observable of the real TimeKeeper (ticks, all conversions, all units, time2step at every second) for every clock of the same bound, and normalize_period on every token string of the bound plus structured near-misses, are validated against the same operators by TLC.",
         note="Trusted: numpy's datetime64 parsing in the harness (ISO string -> integer seconds), TLC. Units d/D/W/ms of [value, unit] not exercised (docs and numpy disagree).",
         design="6 C13"),
+    "C05": dict(
+        level="model_checking",
+        technique="TLA+ spec Pstate model-checked with TLC over all operation histories (MC_Pstate); TLC-generated behaviours replayed into the real State; recorded random histories validated by PstateTrace",
+        text="TLC checks the identity invariants (dense increasing pids, pid[k] >= k, never reused, values follow the particle, arrays equally long, compactify removes exactly the dead in order) over every history of append/kill/compactify/update within the bound; every behaviour TLC generates to the GEN depth plus simulated deep ones is stepped through the real ladim.state.State with the projection compared after each operation, and long random histories recorded from the real State are validated against the same operators.",
+        note="Trusted: the mapping of abstract operations to State calls (as LADiM's own release/IBM/output modules use them), TLC.",
+        design="6 C05"),
 }
 
 NOT_YET = {}
